@@ -3,7 +3,8 @@
    hand-written Serialize/Deserialize impls under rust/src/protocol_types (field names = Rust field names, enums
    externally tagged, numbers above 32 bits as decimal strings, hashes as hex, addresses as bech32).
    These annotations are MODEL: tied to the Rust code by the exact correspondence of the `tj` stream. *)
-From CSL Require Import Base.Prelude Base.Hex Codec.Schema Ledger.Schemas Json.Decimal Json.Json Json.Assoc Json.SerdeSchema.
+From CSL Require Import Base.Prelude Base.Hex Codec.Schema Ledger.Schemas Json.Decimal Json.Json Json.Assoc Json.SerdeSchema
+  Json.MetadataJson Json.PlutusJson Json.SerdeData.
 From Coq Require Import Strings.Byte.
 
 (* names are written as string literals but elaborate to lists of bytes at parse time (no Coq [string] reaches the
@@ -262,8 +263,104 @@ Fixpoint a_NativeScript (d : nat) : jshape :=
   end.
 Definition a_NativeScripts (d : nat) := JSeq (a_NativeScript d).
 
+(* ---------- types that embed a datum / metadatum as a JSON string (JSON text inside JSON text) ----------
+   [emb j] is the JSON value that holds the text of j (real code: a string with serde_json::to_string(j));
+   [unemb] its inverse.  Both are parameters: text <-> tree is external. *)
+Section Emb.
+  Variable emb : json -> json.
+  Variable unemb : json -> option json.
+
+  (* PlutusData: Serialize = decode_plutus_datum_to_json_str(DetailedSchema), Deserialize = encode_json_str_to_plutus_datum *)
+  Definition a_Datum (d : nat) : jshape :=
+    JCustom (fun v => match pd_of_val d v with
+                      | Some p => match p2j PDetailed p with Ok j => emb j | _ => JNull end
+                      | None => JNull
+                      end)
+            (fun j => match unemb j with
+                      | Some j' => match j2p cur_cfg PDetailed j' with
+                                   | Ok p => match val_of_pd d p with Some v => Ok v | None => Err end
+                                   | _ => Err
+                                   end
+                      | None => Err
+                      end).
+  (* TransactionMetadatum: the same with the metadata converters *)
+  Definition a_Metadatum (d : nat) : jshape :=
+    JCustom (fun v => match md_of_val d v with
+                      | Some m => match m2j Detailed m with Ok j => emb j | _ => JNull end
+                      | None => JNull
+                      end)
+            (fun j => match unemb j with
+                      | Some j' => match j2m cur_cfg Detailed j' with
+                                   | Ok m => match val_of_md d m with Some v => Ok v | None => Err end
+                                   | _ => Err
+                                   end
+                      | None => Err
+                      end).
+  Definition a_GeneralTransactionMetadata (d : nat) := JMapObj LNumStr (enc U64) (a_Metadatum d).
+
+  Definition a_DataOption (d : nat) := JEnum [(nm "DataHash", Some (JSingle hex32)); (nm "Data", Some (JSingle (a_Datum d)))].
+  (* ScriptRef: wire variants 0 native, 1..3 Plutus V1..V3; the JSON of a Plutus script is its bytes only, so every
+     Plutus script comes back as V1 (known finding C17-plutus-script-language-lost: [canonical] is false for V2 / V3) *)
+  Definition a_ScriptRef (d : nat) :=
+    JIso (fun v => match v with VVar O [x] => VVar 0 [x] | VVar _ [x] => VVar 1 [x] | _ => v end)
+         (fun v => v)
+         (JEnum [(nm "NativeScript", Some (JSingle (a_NativeScript d)));
+                 (nm "PlutusScript", Some (JSingle (JLeaf (LHex 0 18446744073709551615))))]).
+  (* TransactionOutput: legacy array (with or without data hash) or map form on the wire, one record in JSON; a value
+     read from JSON is written in map form exactly when it has an inline datum or a script reference *)
+  Definition out_f (v : val) : val :=
+    match v with
+    | VAlt O (VAlt O (VList [a; x])) => VList [a; x; VNull; VNull]
+    | VAlt O (VAlt _ (VList [h; a; x])) => VList [a; x; VVar 0 [h]; VNull]
+    | VAlt _ (VStruct [Some a; Some x; od; os]) =>
+        VList [a; x; match od with Some dv => dv | None => VNull end; match os with Some sv => sv | None => VNull end]
+    | _ => v
+    end.
+  Definition out_g (v : val) : val :=
+    match v with
+    | VList [a; x; VNull; VNull] => VAlt 0 (VAlt 0 (VList [a; x]))
+    | VList [a; x; VVar O [h]; VNull] => VAlt 0 (VAlt 1 (VList [h; a; x]))
+    | VList [a; x; dv; sv] =>
+        VAlt 1 (VStruct [Some a; Some x; match dv with VNull => None | _ => Some dv end; match sv with VNull => None | _ => Some sv end])
+    | _ => v
+    end.
+  Definition a_TransactionOutput (d : nat) :=
+    JIso out_f out_g (JRec [(nm "address", address); (nm "amount", a_Value);
+                            (nm "plutus_data", JNullable (a_DataOption d)); (nm "script_ref", JNullable (a_ScriptRef d))]).
+  Definition a_TransactionOutputs (d : nat) := JSeq (a_TransactionOutput d).
+
+  Definition a_TransactionBody (d : nat) := JOptRec [
+    (nm "inputs", a_TransactionInputs); (nm "outputs", a_TransactionOutputs d); (nm "fee", numstr); (nm "ttl", numstr);
+    (nm "certs", a_Certificates); (nm "withdrawals", a_Withdrawals); (nm "update", a_Update);
+    (nm "auxiliary_data_hash", hex32); (nm "validity_start_interval", numstr); (nm "mint", a_Mint);
+    (nm "script_data_hash", hex32); (nm "collateral", a_TransactionInputs); (nm "required_signers", a_Ed25519KeyHashes);
+    (nm "network_id", unit_enum ["Testnet"; "Mainnet"]); (nm "collateral_return", a_TransactionOutput d);
+    (nm "total_collateral", numstr); (nm "reference_inputs", a_TransactionInputs);
+    (nm "voting_procedures", a_VotingProcedures); (nm "voting_proposals", a_VotingProposals);
+    (nm "current_treasury_value", numstr); (nm "donation", numstr)].
+
+  (* Redeemers: array or map form on the wire, an array of records in JSON; read back in map form *)
+  Definition a_RedeemerTag := unit_enum ["Spend"; "Mint"; "Cert"; "Reward"; "Vote"; "VotingProposal"].
+  Definition red_f (v : val) : val :=
+    match v with
+    | VAlt O (VMap l) => VList (List.map (fun kv => match fst kv, snd kv with
+                                                    | VList [t; i], VList [dv; e] => VList [t; i; dv; e]
+                                                    | _, _ => VNull end) l)
+    | VAlt _ (VList l) => VList l
+    | _ => v
+    end.
+  Definition red_g (v : val) : val :=
+    match v with
+    | VList l => VAlt 0 (VMap (List.map (fun e => match e with
+                                                  | VList [t; i; dv; x] => (VList [t; i], VList [dv; x])
+                                                  | _ => (VNull, VNull) end) l))
+    | _ => v
+    end.
+  Definition a_Redeemers (d : nat) :=
+    JIso red_f red_g (JSeq (JRec [(nm "tag", a_RedeemerTag); (nm "index", numstr); (nm "data", a_Datum d); (nm "ex_units", a_ExUnits)])).
+
 (* the table: name (as used by the C01 generator and the harness), wire schema, annotation *)
-Definition serde_table (d : nat) : list (bytes * schema * jshape) := [
+  Definition serde_table (d : nat) : list (bytes * Schema.schema * jshape) := [
   (nm "TransactionInput", TransactionInput, a_TransactionInput);
   (nm "TransactionInputs", TransactionInputs, a_TransactionInputs);
   (nm "Credential", Credential, a_Credential);
@@ -306,8 +403,15 @@ Definition serde_table (d : nat) : list (bytes * schema * jshape) := [
   (nm "VotingProcedures", VotingProcedures, a_VotingProcedures);
   (nm "GovernanceAction", GovernanceAction, a_GovernanceAction);
   (nm "VotingProposal", VotingProposal, a_VotingProposal);
-  (nm "VotingProposals", VotingProposals, a_VotingProposals)
+  (nm "VotingProposals", VotingProposals, a_VotingProposals);
+  (nm "GeneralTransactionMetadata", GeneralTransactionMetadata d, a_GeneralTransactionMetadata d);
+  (nm "ScriptRef", ScriptRef d, a_ScriptRef d);
+  (nm "TransactionOutput", TransactionOutput d, a_TransactionOutput d);
+  (nm "TransactionOutputs", TransactionOutputs d, a_TransactionOutputs d);
+  (nm "TransactionBody", TransactionBody d, a_TransactionBody d);
+  (nm "Redeemers", Redeemers d, a_Redeemers d)
 ].
+End Emb.
 
 (* placeholder string form of externally produced strings (bech32): the harness rewrites every such string of the
    implementation's JSON into this form (and back), so that the correspondence is exact without a model of bech32;
@@ -316,5 +420,13 @@ Definition ph_str (id : N) (b : bytes) : bytes := 1 :: (48 + id) :: hex b.
 Definition ph_of_str (id : N) (s : bytes) : option bytes :=
   match s with
   | 1 :: c :: r => if c =? 48 + id then unhex r else None
+  | _ => None
+  end.
+
+(* placeholder for embedded JSON text: the harness replaces a string that holds JSON text by this array (and back) *)
+Definition ph_emb (j : json) : json := JArr [JStr [1; 88]; j].
+Definition ph_unemb (j : json) : option json :=
+  match j with
+  | JArr [JStr [1; 88]; j'] => Some j'
   | _ => None
   end.
